@@ -114,6 +114,9 @@ def neighbours(r, p):
     if p != b"":
         out.append(("empty", b""))
     out.append(("sha-of-p", ref_prehash(p)))       # the pre-hash itself must not be accepted
+    import hashlib as _hl
+    out.append(("sha-hexdigest-of-p", _hl.sha256(p).hexdigest().encode()))          # ... nor its 64 hex characters, in either case
+    out.append(("sha-HEXDIGEST-of-p", _hl.sha256(p).hexdigest().upper().encode()))
     # passwords are BYTE strings: what looks the same, or is the same text in another normal form / case / width, is another password
     try:
         import unicodedata
@@ -374,6 +377,39 @@ def run_shard(cfg):
         counters.inc("forked_hashes_checked")
         if None in salts or len(set(salts)) != 3:
             viol("salt-reused", "the same password hashed in two forked children and in the parent: salts %s" % ([s_.hex() if s_ else None for s_ in salts],), {"hashes": outs})
+    # ---- passwords that LOOK like digests (64 hex characters) are passwords: q and sha256(q).hexdigest() are different passwords
+    if cfg["shard"] % 2 == 0:
+        import hashlib as _hl2
+        q_ = b"some password %d" % cfg["shard"]
+        for p_ in (_hl2.sha256(q_).hexdigest().encode(), _hl2.sha256(q_).hexdigest().upper().encode()):
+            try:
+                h_ = Auth.hash_password(p_)
+                res_q, res_p = Auth.verify_password(q_, h_), Auth.verify_password(p_, h_)
+                counters.inc("kdf_calls", 3)
+                counters.inc("digest_shaped_passwords_checked")
+                if res_q is not False or res_p is not True:
+                    viol("wrong-password-accepted" if res_q is not False else "right-password-rejected",
+                         "p = hexdigest of sha256(q): verify(q, hash(p)) = %r, verify(p, hash(p)) = %r" % (res_q, res_p), {"p": short(p_), "q": short(q_), "kind": "digest-shaped"})
+                rec_ = ref_record(h_)
+                if rec_ is not None and ref_verdict(rec_, p_) is not True:
+                    viol("hash-format", "the record written for a 64-hex-character password is not the documented sha256+scrypt derivation of that password", {"p": short(p_)})
+            except Exception as e:
+                viol("right-password-raises", "digest-shaped password raised %r" % (e,), {})
+    # ---- a well-formed record with heavier (legal) cost parameters than hash_password uses today - written by a later version, or
+    #      by another implementation of the documented format - is verified with the parameters it carries
+    if cfg["shard"] % 4 == 1:
+        salt_ = bytes(range(16))
+        for N_, r_, p_c in ((16384, 16, 3), (32768, 16, 1)):
+            try:
+                h_heavy = ref_hash(b"heavy", N_, r_, p_c, salt_, 24)
+                ok_h = Auth.verify_password(b"heavy", h_heavy)
+                bad_h = Auth.verify_password(b"heavx", h_heavy)
+                counters.inc("kdf_calls", 3)
+                counters.inc("heavier_parameter_records_checked")
+                if ok_h is not True or bad_h is not False:
+                    viol("right-password-rejected" if ok_h is not True else "wrong-password-accepted", "record with N=%d r=%d p=%d: verify(right) = %r, verify(wrong) = %r" % (N_, r_, p_c, ok_h, bad_h), {"N": N_, "r": r_, "p": p_c})
+            except Exception as e:
+                viol("right-password-raises", "a well-formed record with N=%d r=%d p=%d (legal scrypt parameters) makes verify raise %r" % (N_, r_, p_c, e), {"N": N_, "r": r_, "p": p_c})
     # ---- look-alike pairs (one per shard at real cost, both directions)
     pa, pb = LOOKALIKES[(cfg["shard"] + cfg["seed"]) % len(LOOKALIKES)]
     for p_, q_ in ((pa, pb), (pb, pa)):
@@ -531,7 +567,7 @@ def finish(tier, seed, results):
     m = merge(results)
     inconclusive = []
     need(m["counters"], ["right_password_checked", "wrong_password_checked", "fresh_salt_checked",
-                         "corruptions", "malformed_raised", "control_true", "control_false", "kdf_calls", "configurations_ok", "lookalike_pairs_checked", "kdf_failure_not_true", "forked_hashes_checked"], inconclusive)
+                         "corruptions", "malformed_raised", "control_true", "control_false", "kdf_calls", "configurations_ok", "lookalike_pairs_checked", "kdf_failure_not_true", "forked_hashes_checked", "digest_shaped_passwords_checked", "heavier_parameter_records_checked"], inconclusive)
     cov = {
         "evaluations": m["evaluations"],
         "distinct_nontrivial": m["distinct_nontrivial"],
